@@ -185,6 +185,8 @@ C12_SWEEP_BASES = [
     ("plain", ("load", "M2", "m_ab"), ("bulk", 150, 4020), [("load", "M1", "m_ab"), ("bulk", 4020, 0)]),
     # 20: converter code generated at once from a stub with extra parameters (ctx[i] accesses) and from a plain pair
     ("conv", ("get_converter", "ImplTags"), ("get_converter", "Outer"), []),
+    # 21: generic models of two modules whose TypeVar bounds are forward references (the shared normaliser's namespace)
+    ("plain", ("load", "ListingA", "listing_a"), ("load", "ListingB", "listing_b")),
 ]
 C12_SCALE_BASES = {15, 16, 17, 18, 19}
 # in the scale bases only the sites that read or write the shared caches are swept (the bulk thread is long)
@@ -196,7 +198,7 @@ SCALE_SWEEP_FILES = ("_internal/retort/builtin_mediator.py", "_internal/morphing
 C12_INSTR_SWEEP_BASES = {0, 3, 9}
 C12_QUICK_SITE_SWEEP = [(0, 0), (3, 0), (9, 0), (9, 1), (12, 0), (13, 0),     # (base index, primary thread)
                         (15, 0), (16, 0), (17, 0), (18, 0), (19, 0), (20, 0), (20, 1),
-                        (16, 1), (17, 1)]      # the bulk thread itself stopped once at each cache / compiler site
+                        (16, 1), (17, 1), (21, 0)]      # the bulk thread itself stopped once at each cache / compiler site
 
 
 def _sweep_base(bi):
